@@ -52,7 +52,8 @@ def keyval(rng, c):
     if c == 'float':
         return rng.choice([0.5, 1.5, -0.5, -1.5, 2.0, 1e-9, -1e-9, 123.456, 1e300, -1e300, 0.0])
     if c == 'decimal':
-        return rng.choice([D('0.1'), D('0.2'), D('-0.1'), D('10'), D('9.99'), D('-10'), D('1E+3'), D('0')])
+        return rng.choice([D('0.1'), D('0.2'), D('-0.1'), D('10'), D('9.99'), D('-10'), D('1E+3'), D('0'),
+                           D('1234.5'), D('1234.6'), D('0.12345'), D('0.12346'), D('-1234.55')])
     if c == 'mixed':
         return rng.choice([1, 1.5, D('1.25'), -1, -1.5, D('-1.25'), 2, 2.0, D('2'), 0, 10, D('9.5')])
     if c == 'huge':
@@ -245,7 +246,20 @@ def run_case(case):
         ktyp = 'string' if c in ('text', 'text_unicode') else 'number'
         flds = [{'name': f, 'type': typ.get(f, ktyp)} for f in (rows[0] if rows else {'id': 0})]
         return lab.source('res', flds, rows)
-    got = lab.run([srcstep(), d.sort_rows(key, reverse=reverse, batch_size=batch)])
+    low_prec = c in ('decimal', 'mixed', 'num_num', 'num_text') and \
+        boot.rng(case['seed'], 'C12', 'prec', c, case['idx']).random() < 0.2
+    if low_prec:
+        # the caller computes under a low-precision decimal context (prec=3, ROUND_DOWN): the ORDER of the keys does not
+        # depend on it (9.99 / 10 / 9.5 stay three different keys)
+        import decimal as decimal_
+        cfg['caller_decimal_context'] = 'prec=3, ROUND_DOWN'
+        cov['regime']['caller_low_precision_context'] = 1
+        with decimal_.localcontext() as ctx_:
+            ctx_.prec = 3
+            ctx_.rounding = decimal_.ROUND_DOWN
+            got = lab.run([srcstep(), d.sort_rows(key, reverse=reverse, batch_size=batch)])
+    else:
+        got = lab.run([srcstep(), d.sort_rows(key, reverse=reverse, batch_size=batch)])
     keys = [tkey(r) for r in rows]
     nontrivial = len(set(keys)) >= 2 and len(set(keys)) < len(keys)
     sample = {'config': cfg, 'rows': gen.render(rows[:6], 400)}
